@@ -99,21 +99,23 @@ def zeros_like_swd(swd):
     return jax.tree_util.tree_map(lambda s: jnp.zeros(s.shape, dtype=s.dtype), swd)
 
 
-def mats(lh, p, lsm_example=None, which="MLRJ"):
-    """dense M, L, R (and J if a transformation exists) of a likelihood at p, over real coordinates."""
+def mats(lh, p, lsm_example=None, which="MLRJ", kw=None):
+    """dense M, L, R (and J if a transformation exists) of a likelihood at p, over real coordinates;
+    `kw`: keyword arguments handed to every method (forward-model / likelihood keyword arguments)."""
     import jax
+    kw = kw or {}
     dc = TreeCoords(p)
     lc = TreeCoords(lsm_example if lsm_example is not None else zeros_like_swd(lh.lsm_tangents_shape))
     out = {"dc": dc, "lc": lc, "M": None, "L": None, "R": None, "J": None}
     if "M" in which:
-        out["M"] = dc.dense(lambda v: lh.metric(p, v), dc)
+        out["M"] = dc.dense(lambda v: lh.metric(p, v, **kw), dc)
     if "L" in which:
-        out["L"] = lc.dense(lambda v: lh.left_sqrt_metric(p, v), dc)
+        out["L"] = lc.dense(lambda v: lh.left_sqrt_metric(p, v, **kw), dc)
     if "R" in which:
-        out["R"] = dc.dense(lambda v: lh.right_sqrt_metric(p, v), lc)
+        out["R"] = dc.dense(lambda v: lh.right_sqrt_metric(p, v, **kw), lc)
     if "J" in which:
         try:
-            out["J"] = dc.dense(lambda v: jax.jvp(lh.transformation, (p,), (v,))[1], lc)
+            out["J"] = dc.dense(lambda v: jax.jvp(lambda q: lh.transformation(q, **kw), (p,), (v,))[1], lc)
         except NotImplementedError:
             out["J"] = None
     return out
@@ -126,9 +128,14 @@ KINDS = ["gaussian", "gaussian_default", "gaussian_arraycov", "gaussian_cplx", "
          "vcg_real", "vcg_cplx", "vcstudentt", "ndvcg_cov", "ndvcg_prec", "ndvcg_batched",
          "categorical", "categorical_batched", "categorical_tree",
          "amend_poisson", "amend_vcg_real", "sum_gauss_poisson", "freeze_sum",
-         "amend_cplx", "sum_cplx", "freeze_cplx"]
+         "amend_cplx", "sum_cplx", "freeze_cplx",
+         # forward models with keyword arguments (default and non-default values), mixed-dtype data trees,
+         # narrow / unsigned / single-precision data dtypes
+         "amend_kwargs", "amend_kwargs_default", "amend_kwargs_poisson", "vcg_mixed_tree",
+         "gaussian_f32", "poisson_u8", "poisson_i32", "categorical_i32", "categorical_u8"]
 EXACT_PULLBACK = {"gaussian", "gaussian_default", "gaussian_arraycov", "gaussian_cplx", "gaussian_tree", "studentt", "poisson",
-                  "amend_poisson", "sum_gauss_poisson", "freeze_sum", "amend_cplx", "sum_cplx", "freeze_cplx"}
+                  "amend_poisson", "sum_gauss_poisson", "freeze_sum", "amend_cplx", "sum_cplx", "freeze_cplx",
+                  "amend_kwargs", "amend_kwargs_default", "amend_kwargs_poisson", "gaussian_f32", "poisson_u8", "poisson_i32"}
 
 
 def krng(kind, seed):
@@ -223,6 +230,46 @@ def make(kind, seed):
         I["lh"] = base["lh"].amend(f, domain=dom)
         I["p"] = xi
         I["base"], I["f"] = base, f
+    elif kind in ("amend_kwargs", "amend_kwargs_default", "amend_kwargs_poisson"):
+        # the forward model has a keyword argument WITH a default; the likelihood is evaluated with the
+        # default (no kwargs) or with a non-default value handed through energy/metric/lsm/rsm/transformation
+        def forward(x, scale=1.0):
+            return jnp.exp(scale * x.tree["a"]) + scale * x.tree["b"] ** 2
+        dom = jft.Vector({"a": jft.ShapeWithDtype((n,)), "b": jft.ShapeWithDtype((n,))})
+        if kind == "amend_kwargs_poisson":
+            base = {"lh": jft.Poissonian(jnp.asarray(rng.poisson(2.0, size=n).astype(np.int64)))}
+        else:
+            si = np.exp(rng.normal(size=n) * 0.3)
+            base = {"lh": jft.Gaussian(jnp.asarray(rng.normal(size=n)), noise_cov_inv=lambda x: si ** 2 * x, noise_std_inv=lambda x: si * x)}
+        I["kw"] = {} if kind == "amend_kwargs_default" else {"scale": 2.5 if kind == "amend_kwargs" else 0.7}
+        I["lh"] = base["lh"].amend(forward, domain=dom)
+        I["p"] = jft.Vector({"a": jnp.asarray(rng.normal(size=n) * 0.3), "b": jnp.asarray(rng.normal(size=n))})
+        kw_ = dict(I["kw"])
+        I["base"], I["f"] = base, (lambda xi: forward(xi, **kw_))
+    elif kind == "vcg_mixed_tree":
+        # data tree whose leaves have DIFFERENT dtypes: real and complex handling is per leaf
+        cpx = lambda *shp: rng.normal(size=shp) + 1j * rng.normal(size=shp)
+        data = jft.Vector({"vis": jnp.asarray(cpx(n)), "flux": jnp.asarray(rng.normal(size=n))})
+        m = jft.Vector({"vis": jnp.asarray(cpx(n)), "flux": jnp.asarray(rng.normal(size=n))})
+        sv = jft.Vector({"vis": jnp.asarray(np.exp(rng.normal(size=n) * 0.4)), "flux": jnp.asarray(np.exp(rng.normal(size=n) * 0.4))})
+        I["lh"] = jft.VariableCovarianceGaussian(data)
+        I["p"] = jft.Vector((m, sv))
+        I["data"] = data
+    elif kind == "gaussian_f32":
+        c = logu(rng, 0.1, 10)
+        I["lh"] = jft.Gaussian(jnp.asarray(rng.normal(size=n).astype(np.float32)), noise_cov_inv=lambda x: c * x, noise_std_inv=lambda x: math.sqrt(c) * x)
+        I["p"] = jnp.asarray(rng.normal(size=n))
+    elif kind in ("poisson_u8", "poisson_i32"):
+        x = np.exp(rng.normal(size=n))
+        I["lh"] = jft.Poissonian(jnp.asarray(rng.poisson(2 * x).astype(np.uint8 if kind == "poisson_u8" else np.int32)))
+        I["p"] = jnp.asarray(x)
+    elif kind in ("categorical_i32", "categorical_u8"):
+        rows, K = 2, 3
+        idx = rng.integers(0, K, size=(rows, 1)).astype(np.int32 if kind == "categorical_i32" else np.uint8)
+        I["lh"] = jft.Categorical(jnp.asarray(idx), axis=-1)
+        I["p"] = jnp.asarray(rng.normal(size=(rows, K)))
+        I["lsm_example"] = jnp.zeros((rows, K))
+        I["idx"], I["K"] = idx, K
     elif kind in ("amend_cplx", "sum_cplx", "freeze_cplx"):
         # forward models with a COMPLEX Jacobian (holomorphic, dense complex matrix + quadratic term) in
         # front of complex-data Gaussians: L = (d t)^dagger needs the conjugation of the reverse-mode derivative
@@ -287,6 +334,12 @@ def fisher_exact(kind, seed):
     import nifty.re as jft
     rng = krng(kind, seed + 7919)
     ghx, ghw = _gh(8)
+    # data-dtype variants use the procedure of their base kind with that data dtype
+    pdt = {"poisson_u8": jnp.uint8, "poisson_i32": jnp.int32}.get(kind, jnp.int64)
+    cdt = {"categorical_u8": np.uint8, "categorical_i32": np.int32}.get(kind, np.int64)
+    fdt = np.float32 if kind == "gaussian_f32" else np.float64
+    kind = {"poisson_u8": "poisson", "poisson_i32": "poisson", "categorical_u8": "categorical_batched",
+            "categorical_i32": "categorical_batched", "gaussian_f32": "gaussian"}.get(kind, kind)
 
     def score(lh, p, dc):
         return dc.to_vec(jax.grad(lambda q: lh.energy(q))(p))
@@ -299,7 +352,7 @@ def fisher_exact(kind, seed):
         elif kind == "gaussian_arraycov":
             mk = lambda d: jft.Gaussian(jnp.asarray([d]), noise_cov_inv=jnp.asarray([c]))
         else:
-            mk = lambda d: jft.Gaussian(jnp.asarray([d]), noise_cov_inv=lambda v: c * v, noise_std_inv=lambda v: math.sqrt(c) * v)
+            mk = lambda d: jft.Gaussian(jnp.asarray(np.array([d], dtype=fdt)), noise_cov_inv=lambda v: c * v, noise_std_inv=lambda v: math.sqrt(c) * v)
         p = jnp.asarray([x])
         dc = TreeCoords(p)
         fis = sum(w * np.outer(*(2 * [score(mk(x + e / math.sqrt(c)), p, dc)])) for e, w in zip(ghx, ghw))
@@ -330,7 +383,7 @@ def fisher_exact(kind, seed):
         x = logu(rng, 0.2, 6)
         p = jnp.asarray([x])
         dc = TreeCoords(p)
-        mk = lambda d: jft.Poissonian(jnp.asarray([d], dtype=jnp.int64))
+        mk = lambda d: jft.Poissonian(jnp.asarray([d], dtype=pdt))
         dmax = int(x + 12 * math.sqrt(x) + 30)
         fis = sum(st.poisson.pmf(d, x) * np.outer(*(2 * [score(mk(d), p, dc)])) for d in range(dmax + 1))
         return dc.dense(lambda v: mk(0).metric(p, v), dc), fis
@@ -388,7 +441,7 @@ def fisher_exact(kind, seed):
         fis = 0
         for combo in itertools.product(range(K), repeat=rows):
             w = float(np.prod([pr[r, k] for r, k in enumerate(combo)]))
-            lh = jft.Categorical(jnp.asarray(np.array(combo).reshape(rows, 1)), axis=-1)
+            lh = jft.Categorical(jnp.asarray(np.array(combo).reshape(rows, 1).astype(cdt)), axis=-1)
             g = score(lh, p, dc)
             fis = fis + w * np.outer(g, g)
         lh0 = jft.Categorical(jnp.zeros((rows, 1), dtype=jnp.int64), axis=-1)
@@ -448,7 +501,8 @@ def run_instance(kind, seed, with_expectations=True):
     I = make(kind, seed)
     lh, p = I["lh"], I["p"]
     cat = kind.startswith("categorical")
-    mm = mats(lh, p, I.get("lsm_example"), which="ML" if cat else "MLRJ")
+    kw = I.get("kw")
+    mm = mats(lh, p, I.get("lsm_example"), which="ML" if cat else "MLRJ", kw=kw)
     M, L, R, J = mm["M"], mm["L"], mm["R"], mm["J"]
     sc = 1 + float(np.max(np.abs(M)))
     tol = dict(rtol=1e-9, atol=1e-11 * sc)
@@ -487,6 +541,34 @@ def run_instance(kind, seed, with_expectations=True):
             fails.append(("amend", {"M": M.tolist(), "Jf^T M Jf": (Jf.T @ bm["M"] @ Jf).tolist()}))
         if not close(L, Jf.T @ bm["L"], **tol):
             fails.append(("amend", {"L": L.tolist(), "Jf^T L": (Jf.T @ bm["L"]).tolist()}))
+        if not close(R, bm["R"] @ Jf, **tol):
+            fails.append(("amend", {"R": R.tolist(), "R Jf": (bm["R"] @ Jf).tolist()}))
+        # energy and transformation see the same forward model (same keyword arguments)
+        e1, e2 = float(lh.energy(p, **(kw or {}))), float(base["lh"].energy(y))
+        if not close(e1, e2, 1e-12, atol=1e-12):
+            fails.append(("amend", {"energy": e1, "energy of the likelihood at f(p)": e2}))
+    if kind == "vcg_mixed_tree":
+        # every leaf behaves like the likelihood built from that leaf alone (real: 2/s^2, complex: 4/s^2 ...):
+        # metric, left square root and transformation applied leaf by leaf
+        import nifty.re as jft
+        rng = krng(kind, seed + 17)
+        data, (m_, s_) = I["data"], p.tree
+        tm = jft.Vector({k: jnp.asarray(rng.normal(size=np.shape(v)) + (1j * rng.normal(size=np.shape(v)) if np.iscomplexobj(v) else 0)) for k, v in m_.tree.items()})
+        ts = jft.Vector({k: jnp.asarray(rng.normal(size=np.shape(v))) for k, v in s_.tree.items()})
+        t = jft.Vector((tm, ts))
+        got = {"metric": lh.metric(p, t), "left_sqrt_metric": lh.left_sqrt_metric(p, t), "transformation": lh.transformation(p)}
+        for k in data.tree:
+            lk = jft.VariableCovarianceGaussian(data.tree[k])
+            pk, tk = (m_.tree[k], s_.tree[k]), (tm.tree[k], ts.tree[k])
+            exp = {"metric": lk.metric(pk, tk), "left_sqrt_metric": lk.left_sqrt_metric(pk, tk), "transformation": lk.transformation(pk)}
+            for nm in exp:
+                for j in (0, 1):
+                    a, b = np.asarray(got[nm][j].tree[k]), np.asarray(exp[nm][j])
+                    if not (close(a.real, b.real, 1e-12, atol=1e-13) and close(a.imag, b.imag, 1e-12, atol=1e-13)):
+                        fails.append(("mixed_tree", {"what": nm, "leaf": k, "component": j, "tree": str(a)[:120], "single leaf": str(b)[:120]}))
+        ed = float(lh.energy(p)) - sum(float(jft.VariableCovarianceGaussian(data.tree[k]).energy((m_.tree[k], s_.tree[k]))) for k in data.tree)
+        if abs(ed) > 1e-10:
+            fails.append(("mixed_tree", {"what": "energy of the tree minus sum of the leaf energies", "difference": ed}))
     if kind in ("sum_gauss_poisson", "sum_cplx"):
         m1, m2 = mats(I["parts"][0], p), mats(I["parts"][1], p)
         if not close(M, m1["M"] + m2["M"], **tol):
